@@ -42,10 +42,18 @@ Threshold_Watcher<Traits>
   typename Traits::Threshold threshold;
   Traits::from_delta(threshold, delta);
   if (!Traits::less_than(Traits::get(), threshold)) {
+    // The destructor will not be run: release the handler here.
+    delete &handler;
     throw std::invalid_argument("Threshold_Watcher constructor called with a"
                                 " threshold already reached");
   }
-  pending_position = add_threshold(threshold, handler, expired);
+  try {
+    pending_position = add_threshold(threshold, handler, expired);
+  }
+  catch (...) {
+    delete &handler;
+    throw;
+  }
 }
 
 template <typename Traits>
@@ -57,10 +65,18 @@ Threshold_Watcher<Traits>
   typename Traits::Threshold threshold;
   Traits::from_delta(threshold, delta);
   if (!Traits::less_than(Traits::get(), threshold)) {
+    // The destructor will not be run: release the handler here.
+    delete &handler;
     throw std::invalid_argument("Threshold_Watcher constructor called with a"
                                 " threshold already reached");
   }
-  pending_position = add_threshold(threshold, handler, expired);
+  try {
+    pending_position = add_threshold(threshold, handler, expired);
+  }
+  catch (...) {
+    delete &handler;
+    throw;
+  }
 }
 
 } // namespace Parma_Polyhedra_Library
